@@ -63,6 +63,19 @@ class Builder:
             return tuple(self.build(x) for x in c['v'])
         if t == 'list':
             return [self.build(x) for x in c['v']]
+        if t == 'dict':
+            out = {}
+            for krepr, v in c['v']:
+                k = ast.literal_eval(krepr)          # engine key: ('c', value) | ('i', int) | ('n',) | ('cls', name) ...
+                if k[0] in ('c', 'i'):
+                    out[k[1]] = self.build(v)
+                elif k[0] == 'n':
+                    out[None] = self.build(v)
+                elif k[0] == 'cls':
+                    out[self.cls(k[1])] = self.build(v)
+                else:
+                    raise ValueError(f'cannot build dict key {krepr}')
+            return out
         if t == 'enum':
             return getattr(self.cls(c['cls']), c['member'])
         if t == 'enumv':
@@ -73,7 +86,11 @@ class Builder:
             if c['id'] in self.objs:
                 return self.objs[c['id']]
             k = self.cls(c['cls'])
-            o = object.__new__(k)
+            shadow = [f for f in c['fields'] if isinstance(inspect.getattr_static(k, f, None), property) and not f.startswith('__cached_')]
+            if shadow:
+                # the contract abstracts read-only properties by their values: a subclass in which they are plain attributes
+                k = type(k.__name__, (k,), {f: None for f in shadow})
+            o = k.__new__(k) if k.__new__ is not object.__new__ and issubclass(k, dict) else object.__new__(k)
             self.objs[c['id']] = o
             for f, v in c['fields'].items():
                 if f.startswith('__cached_'):
